@@ -818,6 +818,97 @@ func genLoaderFuzz(r *rand.Rand, n int) []*Probe {
 	return ps
 }
 
+// files around the loaders' size thresholds (the record set is re-allocated from a size estimate when record
+// 301 arrives; ranges of records are handed to several goroutines from 150): regular tables of 1..1000 rows
+// in every text format, in UTF-8 and in encodings whose text grows or shrinks when decoded (UTF-16, Shift_JIS
+// with kanji / half-width katakana), read through the command-line options and through the table objects
+func genLoaderSizes(r *rand.Rand, tier string) []*Probe {
+	rowCounts := []int{1, 149, 150, 151, 299, 300, 301, 302, 320, 345, 500, 680, 1000}
+	contents := []string{"ascii", "kanji", "kana", "mixed"}
+	encs := []string{"UTF8", "SJIS", "UTF16LEM", "UTF16BE", "AUTO-SJIS", "AUTO-UTF16"}
+	formats := []string{"CSV", "TSV", "LTSV", "FIXED"}
+	cell := func(kind string, i int) string {
+		switch kind {
+		case "kanji":
+			return strings.Repeat("日本", 3+i%3)
+		case "kana":
+			return strings.Repeat("ｱ", 6+i%5)
+		case "mixed":
+			return fmt.Sprintf("a%dあ", i)
+		}
+		return fmt.Sprintf("v%d", i%97)
+	}
+	var ps []*Probe
+	for _, n := range rowCounts {
+		for _, kind := range contents {
+			for _, enc := range encs {
+				for _, f := range formats {
+					if tier != "thorough" && r.Intn(4) != 0 && !(n >= 300 && n <= 345 && kind != "ascii" && enc != "UTF8" && r.Intn(2) == 0) {
+						continue
+					}
+					var b strings.Builder
+					switch f {
+					case "CSV":
+						b.WriteString("c1,c2\n")
+					case "TSV":
+						b.WriteString("c1\tc2\n")
+					case "FIXED":
+						b.WriteString("c1    c2\n")
+					}
+					for i := 0; i < n; i++ {
+						c := cell(kind, i)
+						switch f {
+						case "CSV":
+							fmt.Fprintf(&b, "%d,%s\n", i, c)
+						case "TSV":
+							fmt.Fprintf(&b, "%d\t%s\n", i, c)
+						case "LTSV":
+							fmt.Fprintf(&b, "c1:%d\tc2:%s\n", i, c)
+						case "FIXED":
+							fmt.Fprintf(&b, "%-6d%s\n", i, c)
+						}
+					}
+					var data []byte
+					opt := enc
+					switch enc {
+					case "UTF8":
+						data = []byte(b.String())
+					case "SJIS", "AUTO-SJIS":
+						data = encSpec{"SJIS", false}.encode(b.String())
+						if enc == "AUTO-SJIS" {
+							opt = "AUTO"
+						}
+					case "UTF16LEM":
+						data = encSpec{"UTF16LE", true}.encode(b.String())
+					case "UTF16BE":
+						data = encSpec{"UTF16BE", false}.encode(b.String())
+					case "AUTO-UTF16":
+						data = encSpec{"UTF16BE", true}.encode(b.String())
+						opt = "AUTO"
+					}
+					p := &Probe{Group: "loader-size", Hint: f, Shape: "CSV"}
+					p.addFile("in.dat", data)
+					sql := "SELECT COUNT(*) AS n, COUNT(c2) AS m FROM `in.dat`"
+					if r.Intn(3) == 0 {
+						sql = "SELECT * FROM `in.dat`"
+					}
+					args := []string{"-i", f, "-e", opt}
+					if f == "FIXED" {
+						args = append(args, "-m", "[6,40]")
+					}
+					if r.Intn(2) == 0 {
+						args = append(args, "-p", []string{"1", "2", "4", "16"}[r.Intn(4)])
+					}
+					p.Args = append(args, "-f", "CSV", "--enclose-all", sql)
+					p.Note = fmt.Sprintf("%d rows of %s cells, %s, file encoded as %s, %d bytes", n, kind, f, enc, len(data))
+					ps = append(ps, p)
+				}
+			}
+		}
+	}
+	return ps
+}
+
 func utf8Clean(b []byte) bool {
 	for _, c := range b {
 		if c == 0 || c >= 0x80 {
